@@ -70,7 +70,15 @@ func oracleC15(p *Pair, env *Env, a [][]byte) *Failure {
 	mode := string(a[2])
 	sb := mkSandbox(env)
 	defer os.RemoveAll(sb)
-	root := filepath.Join(sb, "outer", "crs")
+	rootRel := filepath.Join("outer", "crs")
+	if strings.HasSuffix(mode, "+glob") {
+		// the root directory has a name that is also a pattern (`cr[s]` matches the name `crs`), and a directory of the
+		// matching name with the same tree lies beside it: the name of the root is a name, not a pattern (D31)
+		mode = strings.TrimSuffix(mode, "+glob")
+		rootRel = filepath.Join("outer", "cr[s]")
+		_ = t.write(filepath.Join(sb, "outer", "crs"))
+	}
+	root := filepath.Join(sb, rootRel)
 	_ = t.write(root)
 	// things outside the root
 	outside := Tree{"outer/other.conf": []byte("# OWASP CRS ver.1.0.0\n"), "outer/x.ra": []byte("  a  \n"), "outer/tests/regression/tests/R/920100.yaml": []byte("  - test_id: 9\n"), "beside/rules/REQUEST-942-X.conf": []byte("SecRule ARGS \"@rx z\" \\\n \"id:942100\"\n"),
@@ -117,7 +125,7 @@ func oracleC15(p *Pair, env *Env, a [][]byte) *Failure {
 	for _, d := range diffSnap(before, snapshot(sb)) {
 		parts := strings.SplitN(d, " ", 2)
 		path := parts[1]
-		rel, err := filepath.Rel(filepath.Join("outer", "crs"), path)
+		rel, err := filepath.Rel(rootRel, path)
 		if err != nil || strings.HasPrefix(rel, "..") {
 			return &Failure{What: "a command touched something outside the resolved CRS root", Detail: fmt.Sprintf("%s: %s", strings.Join(full, " "), d)}
 		}
@@ -165,13 +173,16 @@ func genC15(r *rand.Rand, tier string, env *Env) []Case {
 		// pattern) and the tree may have one elsewhere below the root
 		cmds = append(cmds, []string{"util", "renumber-tests", "../../../../../../beside/tests/regression/tests/R/942100"},
 			[]string{"util", "renumber-tests", "../../../../../tests/regression/tests/R/920100.yaml"},
-			[]string{"util", "renumber-tests", "../../../../docs/942999"})
+			[]string{"util", "renumber-tests", "../../../../docs/942999"},
+			// a neighbour whose name begins like the directory is not below it
+			[]string{"regex", "format", "../../regex-assembly-legacy/942100"}, []string{"regex", "format", "../../regex-assembly-legacy/942100.ra"},
+			[]string{"util", "renumber-tests", "../../tests-disabled/REQUEST-942-X/942100"})
 		// targets that do not exist: nothing may be created for them
 		cmds = append(cmds, []string{"regex", "format", "-c", "999999"}, []string{"regex", "format", "999999"}, []string{"regex", "format", "-c", "nosuchinclude"},
 			[]string{"regex", "generate", "999999"}, []string{"regex", "update", "999999"}, []string{"regex", "compare", "999999"},
 			[]string{"util", "renumber-tests", "-c", "999999"}, []string{"util", "renumber-tests", "999999"})
 		for _, c := range cmds {
-			mode := pick(r, []string{"cwd", "cwd", "d-root", "d-sub", "d-rel", "d-parent", "d-beside", "cwd+ro", "d-root+ro", "d-sub+ro"})
+			mode := pick(r, []string{"cwd", "cwd", "d-root", "d-sub", "d-rel", "d-parent", "d-beside", "cwd+ro", "d-root+ro", "d-sub+ro", "cwd+glob", "d-root+glob"})
 			kind := regexp.MustCompile(`\d{6}(-chain\d+)?|words\d+`).ReplaceAllString(strings.Join(c, " "), "TARGET")
 			cases = append(cases, Case{Kind: "cmd:" + kind,
 				Oracles: []Op{{"c15.writeset", [][]byte{encodeTree(ct.t), []byte(strings.Join(c, "\x00")), []byte(mode)}}}})
@@ -742,6 +753,17 @@ func oracleC18Arg(p *Pair, env *Env, a [][]byte) *Failure {
 	}
 	src, found := t[wantFile]
 	if !found {
+		// a well-formed argument whose file regex-assembly/NNNNNN[-chainK].ra does not exist: the argument names that file
+		// and no other (copies of the same name elsewhere below regex-assembly are not it) — every command fails, prints no
+		// expression and leaves the tree alone
+		u := runCLI(env, sb, nil, "-l", "disabled", "regex", "update", arg)
+		cm := runCLI(env, sb, nil, "-l", "disabled", "regex", "compare", arg)
+		if g.exit == 0 || u.exit == 0 || cm.exit == 0 || len(g.stdout) > 0 || len(cm.stdout) > 0 {
+			return &Failure{What: "an argument whose assembly file does not exist is resolved to some other file", Detail: fmt.Sprintf("%q (file %s absent): generate exit %d %q, update exit %d, compare exit %d %q", arg, wantFile, g.exit, g.stdout, u.exit, cm.exit, cm.stdout)}
+		}
+		if d := diffSnap(before, snapshot(sb)); len(d) > 0 {
+			return &Failure{What: "an argument whose assembly file does not exist still modified files", Detail: fmt.Sprintf("%q: %s", arg, strings.Join(d, ","))}
+		}
 		return nil
 	}
 	viaStdin := runCLI(env, sb, src, "-l", "disabled", "regex", "generate", "-")
@@ -916,6 +938,17 @@ func genC18(r *rand.Rand, tier string, env *Env) []Case {
 			e = pick(r, exs)
 		}
 		cases = append(cases, Case{Kind: "resolve-argument", Oracles: []Op{{"c18.arg", [][]byte{encodeTree(c18Tree()), []byte(e.arg), []byte(e.file)}}}})
+	}
+	// the addressed file is absent, files of the same name lie elsewhere below regex-assembly (an archive, the include and
+	// exclude directories): the argument names regex-assembly/NAME and nothing else
+	for _, e := range []ex{{"942100", "regex-assembly/942100.ra"}, {"942100.ra", "regex-assembly/942100.ra"}, {"942100-chain1", "regex-assembly/942100-chain1.ra"}, {"942100-chain1.ra", "regex-assembly/942100-chain1.ra"}} {
+		t := c18Tree()
+		base := strings.TrimPrefix(e.file, "regex-assembly/")
+		delete(t, e.file)
+		for _, d := range []string{"archive/2023/", "include/", "exclude/", "zz/"} {
+			t["regex-assembly/"+d+base] = []byte("decoy" + strings.TrimSuffix(d, "/") + "\n")
+		}
+		cases = append(cases, Case{Kind: "resolve-argument-file-absent", Oracles: []Op{{"c18.arg", [][]byte{encodeTree(t), []byte(e.arg), []byte(e.file)}}}})
 	}
 	// --all on trees with oversized offsets in file names (only well-formed names otherwise)
 	for _, big := range []string{"256", "257", "511", "65536", "4294967296"} {
